@@ -34,6 +34,12 @@ if [ "${MUT_TESTS:-0}" = "1" ]; then
 fi
 for id in "$@"; do
   echo "=== $id on mutant $name"
+  if [ -n "${MUT_REPLAY:-}" ]; then
+    # MUT_REPLAY=<replay file>: replay one saved case against the mutant instead of the quick tier
+    VERIF_ROOT="$root/verif" "$root/verif/check.sh" "$id" quick --replay "$(readlink -f "$MUT_REPLAY")" 2>&1 | tail -${MUT_TAIL:-6}
+    echo "exit=${PIPESTATUS[0]}"
+    continue
+  fi
   VERIF_ROOT="$root/verif" "$root/verif/check.sh" "$id" quick 2>&1 | tail -${MUT_TAIL:-6}
   echo "exit=${PIPESTATUS[0]}"
 done
